@@ -266,3 +266,55 @@ Proof.
   { apply map_ext_in. intros x Hx. apply in_seq in Hx. apply H. lia. }
   now rewrite E.
 Qed.
+
+(* ---------- a sequence of union calls: the classes are the closure of the united pairs, so the result
+   does not depend on the order (nor on repetitions) of the calls ---------- *)
+Definition Eof (ps : list (nat * nat)) : nat -> nat -> Prop := fun x y => In (x, y) ps.
+Definition union_all (us : list (nat * nat)) (p : uf) : option uf :=
+  ofold (fun p e => uf_union p (fst e) (snd e)) us p.
+
+Lemma unions_inv n : forall us p ps, uf_ok p -> length p = n -> bounded n (Eof ps) -> rel_eq n p (Eof ps) ->
+  (forall e, In e us -> fst e < n /\ snd e < n) ->
+  exists p', union_all us p = Some p' /\ uf_ok p' /\ length p' = n /\ rel_eq n p' (Eof (ps ++ us)).
+Proof.
+  unfold union_all. induction us as [|[i j] us IH]; intros p ps Hok Hl Hbd Hrel Hb; cbn [ofold].
+  - exists p. rewrite app_nil_r. auto.
+  - destruct (Hb (i, j) (or_introl eq_refl)) as [Hi Hj]. cbn [fst snd] in *.
+    destruct (union_spec p i j Hok) as [p1 [E1 [Hok1 [Hl1 Hm]]]]; try lia. rewrite E1. cbn [obind].
+    assert (Hrel1 : rel_eq n p1 (Eof (ps ++ [(i, j)]))).
+    { apply (rel_eq_ext n p1 (add_edge (Eof ps) i j)).
+      - intros x y. unfold add_edge, Eof. rewrite in_app_iff. cbn [In]. split.
+        + intros [H|[-> ->]]; [now left|right; now left].
+        + intros [H|[H|[]]]; [now left|]. injection H as <- <-. now right.
+      - apply (rel_eq_union n p p1 (Eof ps) i j Hl Hbd Hi Hj Hrel). intros x y Hx Hy. apply Hm; lia. }
+    assert (Hbd1 : bounded n (Eof (ps ++ [(i, j)]))).
+    { intros x y H. unfold Eof in H. apply in_app_iff in H. destruct H as [H|[H|[]]]; [now apply Hbd|].
+      injection H as <- <-. now split. }
+    destruct (IH p1 (ps ++ [(i, j)]) Hok1 ltac:(lia) Hbd1 Hrel1 (fun e He => Hb e (or_intror He))) as [p' [E' [H1 [H2 H3]]]].
+    exists p'. split; [exact E'|]. split; [assumption|]. split; [assumption|]. now rewrite <- app_assoc in H3.
+Qed.
+
+Theorem union_order_indep n us1 us2 :
+  (forall e, In e us1 -> fst e < n /\ snd e < n) -> (forall e, In e us1 <-> In e us2) ->
+  exists p1 p2, union_all us1 (uf_new n) = Some p1 /\ union_all us2 (uf_new n) = Some p2 /\
+    (forall x, x < n -> rootv p1 x = rootv p2 x) /\ uf_group p1 = uf_group p2 /\
+    (forall x y, x < n -> y < n -> (same p1 x y <-> conn (Eof us1) x y)).
+Proof.
+  intros Hb Hin. destruct (uf_new_ok n) as [Hok [Hl Hr]].
+  assert (Hrel0 : rel_eq n (uf_new n) (Eof [])).
+  { intros x y Hx Hy. unfold same. rewrite (Hr x Hx), (Hr y Hy). split.
+    - intros ->. apply conn_refl.
+    - intros C. assert (G : forall a b, conn (Eof []) a b -> a = b).
+      { intros a b C'. induction C' as [| ? ? [] | |]; congruence. }
+      now apply G. }
+  assert (Hbd0 : bounded n (Eof [])) by (intros x y []).
+  destruct (unions_inv n us1 (uf_new n) [] Hok Hl Hbd0 Hrel0 Hb) as [p1 [E1 [Hok1 [Hl1 Hr1]]]].
+  destruct (unions_inv n us2 (uf_new n) [] Hok Hl Hbd0 Hrel0) as [p2 [E2 [Hok2 [Hl2 Hr2]]]].
+  { intros e He. apply Hb. now apply Hin. }
+  cbn [app] in Hr1, Hr2. exists p1, p2. split; [exact E1|]. split; [exact E2|].
+  assert (Hroots : forall x, x < n -> rootv p1 x = rootv p2 x).
+  { apply (same_roots n p1 p2 Hok1 Hok2 Hl1 Hl2). intros x y Hx Hy. rewrite (Hr1 x y Hx Hy), (Hr2 x y Hx Hy).
+    split; apply conn_mono; intros a b H; apply conn_step; now apply Hin. }
+  split; [exact Hroots|]. split; [|exact Hr1].
+  apply uf_group_ext; [assumption|assumption|lia|]. rewrite Hl1. exact Hroots.
+Qed.
